@@ -64,7 +64,7 @@ func c10One(c *bx.Ctx, v ref.V) {
 		c.T(1)
 		if pan != "" || !u32eq(got, want) {
 			c.Report(keyJoin("C10", v.Type, "built"), "DestinationSSRC of a packet built in memory differs from the documented list",
-				bx.Replay{Entry: "DestinationSSRC", Value: valueString(v), Expected: fmt.Sprintf("%x", want), Observed: fmt.Sprintf("%x %s", got, pan)})
+				bx.Replay{Entry: "DestinationSSRC", Value: valueString(v), ValueGob: valueGob(v), Expected: fmt.Sprintf("%x", want), Observed: fmt.Sprintf("%x %s", got, pan)})
 			return
 		}
 		b, err, pan := safeMarshal(v.P)
@@ -80,7 +80,7 @@ func c10One(c *bx.Ctx, v ref.V) {
 				c.T(2)
 				if pan != "" || !u32eq(got, want) {
 					c.Report(keyJoin("C10", v.Type, "own-decoded"), "DestinationSSRC changes after an encode/decode round trip (own decoder)",
-						bx.Replay{Entry: "Marshal+own+DestinationSSRC", Value: valueString(v), Expected: fmt.Sprintf("%x", want), Observed: fmt.Sprintf("%x %s", got, pan)})
+						bx.Replay{Entry: "Marshal+own+DestinationSSRC", Value: valueString(v), ValueGob: valueGob(v), Expected: fmt.Sprintf("%x", want), Observed: fmt.Sprintf("%x %s", got, pan)})
 					return
 				}
 			} else {
@@ -109,7 +109,7 @@ func c10One(c *bx.Ctx, v ref.V) {
 				c.T(2)
 				if pan != "" || !u32eq(got, exp) {
 					c.Report(keyJoin("C10", v.Type, "dgram-decoded"), "DestinationSSRC changes after an encode/decode round trip (datagram decoder)",
-						bx.Replay{Entry: "Marshal+dgram+DestinationSSRC", Value: valueString(v), Expected: fmt.Sprintf("%x", exp), Observed: fmt.Sprintf("%x %s", got, pan)})
+						bx.Replay{Entry: "Marshal+dgram+DestinationSSRC", Value: valueString(v), ValueGob: valueGob(v), Expected: fmt.Sprintf("%x", exp), Observed: fmt.Sprintf("%x %s", got, pan)})
 					return
 				}
 			}
